@@ -50,6 +50,9 @@ type spec struct { // how to build a packet (inputs of a replay)
 	Ext    int    `json:"ext"`
 	Marker bool   `json:"marker"`
 	PT     uint8  `json:"pt"`
+	// pacing interceptor only: which SSRC the header carries (0 = StreamInfo.SSRC of the stream written on, 1 = the
+	// StreamInfo.SSRC of the next bound stream, 2 = an SSRC no stream was bound with, 3 = zero)
+	SSRCMode int `json:"ssrc_mode,omitempty"`
 }
 
 type qCase struct {
@@ -57,6 +60,7 @@ type qCase struct {
 	Rate     int      `json:"rate"`
 	Rates    []int    `json:"rates,omitempty"` // mid-stream rate changes
 	Writers  [][]spec `json:"writers"`
+	Infos    []uint32 `json:"infos,omitempty"` // pacing: StreamInfo.SSRC per stream (default 1000+w)
 	Conc     bool     `json:"conc"`
 	Burst    int64    `json:"burst"`
 	Accepted [][]pk   `json:"-"`
@@ -64,8 +68,40 @@ type qCase struct {
 	NDeliv   int      `json:"ndelivered"`
 }
 
-func build(w int, s spec) (*rtp.Header, []byte) {
-	h := &rtp.Header{Version: 2, SSRC: uint32(1000 + w), SequenceNumber: s.Seq, Timestamp: uint32(s.Seq) * 3000, Marker: s.Marker, PayloadType: s.PT} //nolint:gosec
+// infoSSRC is the StreamInfo.SSRC stream w of a pacing-interceptor case is bound with.
+func infoSSRC(infos []uint32, w int) uint32 {
+	if w < len(infos) {
+		return infos[w]
+	}
+
+	return uint32(1000 + w) //nolint:gosec
+}
+
+// hdrSSRC is the SSRC in the header of a packet written on stream w. For the leaky-bucket pacer the stream of a packet
+// IS its header SSRC (AddStream(ssrc, writer)); for the pacing interceptor the stream is the binding written on and the
+// header SSRC is free.
+func hdrSSRC(kind string, infos []uint32, nw, w int, s spec) uint32 {
+	if kind != "pacing" {
+		return uint32(1000 + w) //nolint:gosec
+	}
+	switch s.SSRCMode {
+	case 1:
+		if nw > 1 {
+			return infoSSRC(infos, (w+1)%nw)
+		}
+
+		return infoSSRC(infos, w) + 1
+	case 2:
+		return 0x77000000 + uint32(s.Seq)
+	case 3:
+		return 0
+	default:
+		return infoSSRC(infos, w)
+	}
+}
+
+func build(w int, ssrc uint32, s spec) (*rtp.Header, []byte) {
+	h := &rtp.Header{Version: 2, SSRC: ssrc, SequenceNumber: s.Seq, Timestamp: uint32(s.Seq) * 3000, Marker: s.Marker, PayloadType: s.PT} //nolint:gosec
 	for i := 0; i < s.CSRC; i++ {
 		h.CSRC = append(h.CSRC, uint32(i*77+1)) //nolint:gosec
 	}
@@ -144,7 +180,7 @@ func runQ(c qCase, fails *[]cq.ImplFailure) qCase {
 			panic(err)
 		}
 		for w := 0; w < nw; w++ {
-			ws[w] = ic.BindLocalStream(&interceptor.StreamInfo{SSRC: uint32(1000 + w)}, col.writer(int64(w))) //nolint:gosec
+			ws[w] = ic.BindLocalStream(&interceptor.StreamInfo{SSRC: infoSSRC(c.Infos, w)}, col.writer(int64(w)))
 		}
 		closer = ic.Close
 		setRate = func(r int) { f.SetRate("x", r) }
@@ -169,7 +205,7 @@ func runQ(c qCase, fails *[]cq.ImplFailure) qCase {
 	var mu sync.Mutex
 	send := func(w int) {
 		for i, s := range c.Writers[w] {
-			h, p := build(w, s)
+			h, p := build(w, hdrSSRC(c.Kind, c.Infos, nw, w, s), s)
 			want := toPk(int64(w), h, p)
 			n, err := ws[w].Write(h, p, interceptor.Attributes{})
 			if err == nil {
@@ -240,6 +276,7 @@ type closeCase struct {
 	Kind         string    `json:"kind"` // pacing | leaky
 	Rate         int       `json:"rate"`
 	Writers      [][]spec  `json:"writers"` // the last Late specs of every writer are written after Close returned
+	Infos        []uint32  `json:"infos,omitempty"`
 	Late         int       `json:"late"`
 	Conc         bool      `json:"conc"`
 	GapUS        int       `json:"gap_us"`         // pause of a writer between two writes
@@ -279,7 +316,7 @@ func runClose(c closeCase, fails *[]cq.ImplFailure) closeCase { //nolint:cyclop
 			panic(err)
 		}
 		for w := 0; w < nw; w++ {
-			ws[w] = ic.BindLocalStream(&interceptor.StreamInfo{SSRC: uint32(1000 + w)}, col.writer(int64(w))) //nolint:gosec
+			ws[w] = ic.BindLocalStream(&interceptor.StreamInfo{SSRC: infoSSRC(c.Infos, w)}, col.writer(int64(w)))
 		}
 		closer = ic.Close
 		c.Burst = int64(pacing.VerifBurst(c.Rate, time.Millisecond))
@@ -295,7 +332,7 @@ func runClose(c closeCase, fails *[]cq.ImplFailure) closeCase { //nolint:cyclop
 	c.Obs = make([][]wrObs, nw)
 	var closeBegun, closeReturned atomic.Int32
 	write := func(w int, s spec) {
-		h, p := build(w, s)
+		h, p := build(w, hdrSSRC(c.Kind, c.Infos, nw, w, s), s)
 		want := toPk(int64(w), h, p)
 		after := closeReturned.Load() == 1
 		_, err := ws[w].Write(h, p, interceptor.Attributes{})
@@ -464,8 +501,40 @@ func genClose(r *rand.Rand, kind string, i int) (closeCase, []string) {
 	for w := 0; w < nw; w++ {
 		c.Writers = append(c.Writers, genSpecs(r, 3+r.Intn(14)+c.Late, false))
 	}
+	if kind == "pacing" {
+		c.Infos, b = varySSRC(r, c.Writers, b)
+	}
 
 	return c, b
+}
+
+// varySSRC (pacing interceptor): in half of the cases the header SSRC of every packet is chosen independently of the
+// StreamInfo.SSRC of the stream it is written on, and in a quarter of the multi-stream cases several streams are bound
+// with the same StreamInfo.SSRC (all zero = StreamInfo{}, or one shared value).
+func varySSRC(r *rand.Rand, writers [][]spec, b []string) ([]uint32, []string) {
+	var infos []uint32
+	if r.Intn(2) == 0 {
+		b = append(b, "hdr-ssrc-varied")
+		for w := range writers {
+			for k := range writers[w] {
+				writers[w][k].SSRCMode = r.Intn(4)
+			}
+		}
+	} else {
+		b = append(b, "hdr-ssrc-own")
+	}
+	if len(writers) > 1 && r.Intn(4) == 0 {
+		b = append(b, "streams-share-info-ssrc")
+		v := uint32(0)
+		if r.Intn(2) == 0 {
+			v = 1000
+		}
+		for range writers {
+			infos = append(infos, v)
+		}
+	}
+
+	return infos, b
 }
 
 func coqPk(p pk) string {
@@ -558,6 +627,9 @@ func genQ(r *rand.Rand, kind string, i int) (qCase, []string) {
 	}
 	for w := 0; w < nw; w++ {
 		c.Writers = append(c.Writers, genSpecs(r, 2+r.Intn(12), big && w == 0))
+	}
+	if kind == "pacing" {
+		c.Infos, b = varySSRC(r, c.Writers, b)
 	}
 	if len(c.Rates) > 0 {
 		// with rate changes the burst varies over the run: a packet of exactly burst size (1500 bytes) would be
@@ -707,7 +779,8 @@ func main() {
 	env := &cq.Set{Name: "c17env", Import: "IV.Check.C17bCheck", CaseType: "env_case", Checks: []string{"env_spec_failures", "env_tight_failures"}}
 	pcl := &cq.Set{Name: "c17pclose", Import: "IV.Check.C17bCheck", CaseType: "close_case", Checks: []string{"pclose_mismatches", "pclose_spec_failures"}}
 	lcl := &cq.Set{Name: "c17lclose", Import: "IV.Check.C17bCheck", CaseType: "close_case", Checks: []string{"lclose_mismatches", "lclose_spec_failures"}}
-	sets := []*cq.Set{pac, lea, env, pcl, lcl}
+	rou := &cq.Set{Name: "c17route", Import: "IV.Check.C17cCheck", CaseType: "route_case", Checks: []string{"route_mismatches", "route_spec_failures"}}
+	sets := []*cq.Set{rou, pac, lea, env, pcl, lcl} // route first: its failure codes name the routing error
 	if o.Replay != "" {
 		var probe map[string]interface{}
 		switch cq.LoadReplay(o.Replay, &probe) {
@@ -715,6 +788,10 @@ func main() {
 			var c envCase
 			cq.LoadReplay(o.Replay, &c)
 			env.Cases = append(env.Cases, runEnv(c, r).toCase())
+		case "c17route":
+			var c routeCase
+			cq.LoadReplay(o.Replay, &c)
+			rou.Cases = append(rou.Cases, runRoute(c).toCase("replay"))
 		case "c17leaky":
 			var c qCase
 			cq.LoadReplay(o.Replay, &c)
@@ -746,6 +823,10 @@ func main() {
 			pac.Cases = append(pac.Cases, runQ(c, &fails).toCase("corpus"))
 		case "c17leaky":
 			lea.Cases = append(lea.Cases, runQ(c, &fails).toCase("corpus"))
+		case "c17route":
+			var rc routeCase
+			cq.LoadReplay(f, &rc)
+			rou.Cases = append(rou.Cases, runRoute(rc).toCase("corpus"))
 		case "c17pclose", "c17lclose":
 			var cc closeCase
 			set := cq.LoadReplay(f, &cc)
@@ -795,6 +876,27 @@ func main() {
 		} else {
 			lea.Cases = append(lea.Cases, res[i].toCase(j.b...))
 		}
+	}
+	// routing: which stream's next writer receives each packet (route.go)
+	nr := o.Scale(240, 4000)
+	rjobs := make([]routeCase, nr)
+	rbk := make([][]string, nr)
+	for i := 0; i < nr; i++ {
+		rjobs[i], rbk[i] = genRoute(r, i)
+	}
+	rres := make([]routeCase, nr)
+	for i := range rjobs {
+		wg.Add(1)
+		sem <- struct{}{}
+		go func(i int) {
+			defer wg.Done()
+			rres[i] = runRoute(rjobs[i])
+			<-sem
+		}(i)
+	}
+	wg.Wait()
+	for i := range rres {
+		rou.Cases = append(rou.Cases, rres[i].toCase(rbk[i]...))
 	}
 	ne := o.Scale(12, 300)
 	var maxStale, staleOver, setStale, nAllow int64 // clock model of theorem C17b_envelope_oracle_sound_for_exact_limiter
@@ -883,6 +985,10 @@ func main() {
 		"the actual backward steps of the time stamps plus 5 ms per SetRate (env_tight_failures); "+
 		"env churn cases: backlog of 300..500 packets at 0.1..1.2 Mbit/s, a goroutine calls SetRate (same rate / different rates) every 2..10 ms for 300..500 ms while the backlog drains; "+
 		"close sets: Close called 0..60 ms into the traffic of 1..4 writers (sequential or concurrent), 1..3 writes per writer after Close returned, second Close; "+
-		"per call phase (before/racing/after Close) and result, delivered sequence, count delivered when Close returned vs 8 ms later, compared with the LTS with Close",
+		"per call phase (before/racing/after Close) and result, delivered sequence, count delivered when Close returned vs 8 ms later, compared with the LTS with Close; "+
+			"pacing interceptor, all sets: in half of the cases the header SSRC of each packet is independent of the StreamInfo.SSRC of the stream written on (own / next stream's / unbound / 0), "+
+			"a quarter of the multi-stream cases bind all streams with one StreamInfo.SSRC; route set: one goroutine interleaves BindLocalStream calls (distinct, shared, zero and repeated "+
+			"StreamInfo.SSRC, also mid-traffic while packets are queued) with writes on any existing binding with any header SSRC; every delivery is stamped with the binding whose next writer "+
+			"received it and the stamped sequence must equal the accepted sequence",
 		sets, extra, fails)
 }
